@@ -491,6 +491,43 @@ theorem fuelFor_enough (over : Val) : depth over + 2 ≤ fuelFor over := by unfo
 theorem index_never_panics (ix : Indexer) (v : Val) (s : String) : index ix v ≠ .panic s := by
   cases ix <;> cases v <;> simp only [index] <;> (try split) <;> (try split) <;> simp
 
+theorem indexAll_never_panics (ix : Indexer) : ∀ (xs : List Val) (s : String), indexAll ix xs ≠ .panic s := by
+  intro xs
+  induction xs with
+  | nil => intro s h; simp [indexAll] at h
+  | cons x r ih =>
+    intro s
+    simp only [indexAll]
+    exact bind_ne_panic (index_never_panics ix x) (fun k => bind_ne_panic ih (fun ks s h => by simp at h)) s
+
+mutual
+/-- **`override.EnforceUnicity` never panics**, on any tree -/
+theorem enforce_never_panics : ∀ (v : Val) (p : TPath) (s : String), enforce v p ≠ .panic s
+  | .map kvs, p, s => by
+    simp only [enforce]
+    exact bind_ne_panic (enforceKVs_never_panics kvs p) (fun m s h => by simp at h) s
+  | .seq xs, p, s => by
+    simp only [enforce]
+    cases indexerAt p with
+    | none => simp
+    | some ix => exact bind_ne_panic (indexAll_never_panics ix xs) (fun ks s h => by simp at h) s
+  | .null, _, _ => by simp [enforce]
+  | .bool _, _, _ => by simp [enforce]
+  | .int _, _, _ => by simp [enforce]
+  | .float _, _, _ => by simp [enforce]
+  | .str _, _, _ => by simp [enforce]
+theorem enforceKVs_never_panics : ∀ (kvs : KVs) (p : TPath) (s : String), enforceKVs kvs p ≠ .panic s
+  | [], _, _ => by simp [enforceKVs]
+  | (k, e) :: r, p, s => by
+    simp only [enforceKVs]
+    exact bind_ne_panic (enforce_never_panics e (next p k))
+      (fun u => bind_ne_panic (enforceKVs_never_panics r p) (fun r' s h => by simp at h)) s
+end
+
+theorem enforceTop_never_panics (v : Val) (s : String) : enforceTop v ≠ .panic s := by
+  unfold enforceTop
+  cases v <;> first | (simp; done) | exact enforce_never_panics _ _ s
+
 /-! ## 4. `enforceUnicity`: one entry per key, the later one wins, the first position is kept -/
 
 /-- after unicity no two entries share a key -/
